@@ -13,6 +13,15 @@
    After every step ALL read APIs are logged.
 3. TLC validates every log against spec/storage/KvMapTrace.tla (Abs map evaluated at the virtual now; concurrent
    reads must be explained by one of the states they overlapped).
+4. Concurrent part (readers / writers racing each other and the eviction worker).  Every API call of the code holds
+   _mutex for its whole body, so in KvMap.tla concurrent callers are interleavings of the atomic actions; the flag
+   Dev_CacheFillOutsideLock splits get() on a cache miss into GetRead (copy under _mutex) and GetFill (cache fill after
+   the unlock): TLC must then report Inv_Reads violated (three configurations: the window is hit by an overwrite, a
+   remove, an expireAt), and the counterexamples become tiny concurrent programs.  harness/drv_s_kvmap.cpp runs the
+   real KVStore under the deterministic scheduler (vf/sched: pthread mutex / rwlock / condvar interposition, one thread
+   at a time, the store's wheel and eviction-worker threads scheduled too): preemption-bounded DFS of the TLC-derived
+   programs plus seeded random programs under random schedules, each followed by a sequential read-back of every key.
+   Oracle: spec/storage/KvConcTrace.tla - Call/Ret linearizability against the KvAbs map; the read-back must equal it.
 """
 import os, json, re, concurrent.futures as cf
 import vf
@@ -30,7 +39,8 @@ def module(ck, name, kinds=ALL_KINDS, invariants=("Inv_Reads", "Inv_Struct"), **
     d = os.path.join(ck.work, name)
     os.makedirs(d, exist_ok=True)
     c = dict(NK=2, NV=NV_DEFAULT, MaxTime=3, MaxTtl=2, MaxOps=3, CacheMax=1, WorkerOn=True,
-             Dev_ExpiredKeyResurrected=False, Dev_ReplayDropsPerRecord=False, Emit=False)
+             Dev_ExpiredKeyResurrected=False, Dev_ReplayDropsPerRecord=False, Dev_CacheFillOutsideLock=False, NReaders=1,
+             Emit=False)
     c.update(const)
     with open(os.path.join(d, "MCKvMap.tla"), "w") as f:
         f.write("---- MODULE MCKvMap ----\nEXTENDS KvMap\nMCKinds == %s\n====\n" % vf.tla(set(kinds)))
@@ -76,13 +86,15 @@ def cex_history(r, nv):
 
 def run(ck):
     thorough = ck.tier == "thorough"
-    ck.make("drv_kvmap")
+    ck.make("drv_kvmap", "drv_s_kvmap")
     ck.rule = ("histories = step sequences printed by TLC from KvMap.tla in generator mode (every 3-step history over "
                "2 keys / 2 values / TTL 1-2 / absolute expiries 0-4 / time jumps 1-3, every 4-step TTL/expireAt/persist/"
                "compact/close/tick history over one key, seeded simulation of 6-8 steps over 3 keys / 3 values, "
                "counterexamples of the Dev_* self-tests); each is replayed on the real store under a "
                "virtual wall clock with all read APIs logged after every step, under a slow wheel (both read orders; cache sizes 0-3), a "
-               "10 ms wheel (eviction worker active) and with a concurrent reader; non-trivial = the history lets an "
+               "10 ms wheel (eviction worker active) and with a concurrent reader; concurrent part: programs derived from the "
+               "TLC counterexamples of Dev_CacheFillOutsideLock (preemption-bounded DFS of the real store's schedules) and "
+               "seeded random 2-3 thread programs under random schedules, judged for linearizability; non-trivial = the history lets an "
                "expiry pass (TTL/expireAt followed by a time jump) or restarts / compacts the store")
     # ------------------------------------------------------------------ 1. model checking, self-tests, generators
     jobs = []
@@ -97,6 +109,13 @@ def run(ck):
     jobs.append(("dev_res", mod, cfg, dict(workers=1, dump_trace=os.path.join(ck.work, "cex_res.json"))))
     mod, cfg = module(ck, "dev_rep", kinds=DISK_KINDS, NV=1, MaxOps=4, Dev_ReplayDropsPerRecord=True, invariants=["Inv_Reads"])
     jobs.append(("dev_rep", mod, cfg, dict(workers=2, dump_trace=os.path.join(ck.work, "cex_rep.json"))))
+    # concurrent part: the split critical section must be seen by the refinement invariant (1 reader in the window +
+    # writer actions + the eviction path); three configurations force three different writers into the window
+    for tag, kinds, nv in (("fill_set", ["set", "get"], 2), ("fill_rm", ["set", "rm", "get"], 1),
+                           ("fill_exp", ["set", "exp", "get"], 1)):
+        mod, cfg = module(ck, "dev_" + tag, kinds=kinds, NV=nv, MaxOps=5, MaxTime=1, Dev_CacheFillOutsideLock=True,
+                          invariants=["Inv_Reads"])
+        jobs.append(("dev_" + tag, mod, cfg, dict(workers=1, dump_trace=os.path.join(ck.work, "cex_%s.json" % tag))))
     mod, cfg = module(ck, "gen3", MaxOps=3, MaxTime=3, WorkerOn=False, Emit=True, invariants=["EmitInv"])
     jobs.append(("gen3", mod, cfg, dict(workers=4, timeout=1500)))
     # restart / compaction focused: one key, one value, all 4-step histories (+ the open that follows a close)
@@ -147,6 +166,16 @@ def run(ck):
             raise vf.Infra("self-test: no counterexample exported for " + what)
         probes.append(h)
         ck.sample({"kind": "probe: TLC counterexample of %s, replayed on the real store" % what, "history": h})
+    conc_programs = []
+    for tag in ("dev_fill_set", "dev_fill_rm", "dev_fill_exp"):
+        r = res[tag]
+        if r.violated != "Inv_Reads":
+            raise vf.Infra("self-test: Impl with Dev_CacheFillOutsideLock = TRUE must violate Inv_Reads (%s), got %r" % (tag, r.violated))
+        prog = cex_program(r)
+        if not prog:
+            raise vf.Infra("self-test: counterexample of %s has no GetRead .. GetFill window" % tag)
+        conc_programs.append(prog)
+        ck.sample({"kind": "concurrent program from the TLC counterexample of Dev_CacheFillOutsideLock (%s)" % tag, "program": prog})
     # ------------------------------------------------------------------ 2. cases
     rng = ck.rng
     h3 = hist_lines(res["gen3"])
@@ -182,6 +211,7 @@ def run(ck):
         raise vf.Infra("drv_kvmap: %d executions exceeded the wall-clock limit" % stats["timeouts"])
     ck.evaluations = stats["executions"]
     judge(ck, "main", cases, out_path)
+    concurrent_part(ck, conc_programs, thorough)
     if thorough:
         # exploration: the concurrent-reader histories once more under ThreadSanitizer (a report aborts the execution
         # and shows up as a died store); the traces are judged by the same oracle
@@ -194,6 +224,266 @@ def run(ck):
         ck.note("ThreadSanitizer build: %d concurrent-reader executions, %d aborted (race report / crash)" % (
             stats["executions"], stats["crashed"]))
         judge(ck, "tsan", tcases, out_path)
+
+
+# ---------------------------------------------------------------------------------------------- concurrent part
+def cex_program(r):
+    """TLC counterexample of Dev_CacheFillOutsideLock -> 'init=.. ; a=get:k,get:k ; b=<what ran inside the window>'"""
+    if not r.trace_json:
+        return None
+    seq = []          # (kind, text or key)
+    for a in r.trace_json["counterexample"]["action"]:
+        name, c = a[1]["name"], a[1].get("context", {})
+        if name == "Set": seq.append(("op", "set:%d:%d" % (c["k"], c["v"])))
+        elif name == "SetTtl": seq.append(("op", "setx:%d:%d" % (c["k"], c["v"])))
+        elif name == "Remove": seq.append(("op", "rm:%d" % c["k"]))
+        elif name == "ExpireAt": seq.append(("op", ("expp:%d" if c["t"] <= 0 else "expf:%d") % c["k"]))
+        elif name == "Persist": seq.append(("op", "per:%d" % c["k"]))
+        elif name == "Clear": seq.append(("op", "clear"))
+        elif name == "GetRead": seq.append(("read", c["k"]))
+        elif name == "GetFill":
+            seq.append(("fill", c["k"] if "k" in c else c["r"]["k"]))
+            break
+    if not seq or seq[-1][0] != "fill":
+        return None
+    k = seq[-1][1]
+    opens = [i for i, (kind, x) in enumerate(seq) if kind == "read" and x == k]
+    if not opens:
+        return None
+    w = opens[-1]     # the copy that GetFill installs was taken by the last GetRead of that key
+    txt = lambda e: e[1] if e[0] == "op" else "get:%d" % e[1]
+    pre = [txt(e) for e in seq[:w]]
+    mid = [txt(e) for e in seq[w + 1:-1]]
+    if not mid:
+        return None
+    return "init=%s ; a=get:%d,get:%d ; b=%s" % (",".join(pre), k, k, ",".join(mid))
+
+
+READ_OPS = ["get", "get", "get", "ex", "ttl", "getb", "keys", "size"]
+WRITE_OPS = ["set", "set", "setx", "rm", "expf", "expp", "per", "clear", "compact"]
+
+
+def random_program(rng):
+    def wop():
+        o = rng.choice(WRITE_OPS)
+        if o in ("set", "setx"):
+            return "%s:%d:%d" % (o, rng.randint(1, 3), rng.randint(1, 3))
+        if o in ("clear", "compact"):
+            return o
+        return "%s:%d" % (o, rng.randint(1, 3))
+
+    def rop():
+        o = rng.choice(READ_OPS)
+        return o if o in ("getb", "keys", "size") else "%s:%d" % (o, rng.randint(1, 3))
+    init = ["%s:%d:%d" % (rng.choice(["set", "set", "setx"]), k, rng.randint(1, 3)) for k in rng.sample([1, 2, 3], rng.randint(2, 3))]
+    threads = []
+    shape = rng.choice(["rw", "rw", "rrw", "rww", "mix"])
+    for i, name in enumerate("abc"[:len(shape) if shape != "mix" else 2]):
+        n = rng.randint(2, 4)
+        if shape == "mix":
+            ops = [rng.choice([rop, wop])() for _ in range(n)]
+        else:
+            ops = [(rop if shape[i] == "r" else wop)() for _ in range(n)]
+        threads.append("%s=%s" % (name, ",".join(ops)))
+    return "init=%s ; %s" % (",".join(init), " ; ".join(threads))
+
+
+def split_conc(path):
+    """-> list of [lines]; executions that did not run to completion are returned separately"""
+    done, other, cur = [], [], []
+    with open(path) as f:
+        for ln in f:
+            cur.append(ln)
+            if ln.startswith('{"e":"Reset"'):
+                end = next((l for l in cur if l.startswith('{"e":"End"')), None)
+                crashed = any(l.startswith('{"e":"Crashed"') or l.startswith('{"e":"HarnessTimeout"') for l in cur)
+                if end and '"outcome":"done"' in end and not crashed:
+                    done.append(cur)
+                else:
+                    other.append(cur)
+                cur = []
+    return done, other
+
+
+def validate_conc(ck, tag, execs):
+    """dedupe, validate against KvConcTrace; returns list of rejected executions (lines, index of unmatched line)"""
+    uniq, seen = [], set()
+    for lines in execs:
+        key = "".join(l for l in lines if not l.startswith('{"e":"End"'))
+        if key not in seen:
+            seen.add(key)
+            uniq.append(lines)
+    rejected = []
+    chunk = list(uniq)
+    rounds = 0
+    while chunk and rounds <= 3:
+        p = os.path.join(ck.work, "val_conc_%s.ndjson" % tag)
+        with open(p, "w") as f:
+            for lines in chunk:
+                f.writelines(lines)
+        for attempt in (1, 2):
+            v = vf.validate_trace(os.path.join(SPECDIR, "KvConcTrace.tla"), os.path.join(SPECDIR, "KvConcTrace.cfg"), p,
+                                  tag="C12_conc_" + tag, timeout=1200)
+            if not v.error:
+                break
+        if v.error:
+            raise vf.Infra("trace validation error (KvConcTrace): " + v.error)
+        ck.states += v.states
+        if v.accepted:
+            break
+        ln, k = 0, 0
+        while k < len(chunk) and ln + len(chunk[k]) < v.maxl:
+            ln += len(chunk[k])
+            k += 1
+        if k >= len(chunk):
+            raise vf.Infra("trace validation: cannot locate rejected line %d" % v.maxl)
+        rejected.append((chunk[k], v.maxl - ln - 1))
+        chunk = chunk[k + 1:]
+        rounds += 1
+    return len(uniq), rejected
+
+
+def overlapping(lines):
+    open_calls = 0
+    for l in lines:
+        if l.startswith('{"e":"Call"') and '"t":"main"' not in l:
+            open_calls += 1
+            if open_calls > 1:
+                return True
+        elif l.startswith('{"e":"Ret"') and '"t":"main"' not in l:
+            open_calls -= 1
+    return False
+
+
+def conc_summary(lines, pos):
+    out = []
+    for l in lines[:pos + 1]:
+        try:
+            e = json.loads(l)
+        except Exception:
+            continue
+        if e["e"] == "Call":
+            out.append("%s:%s(%s%s)" % (e["t"], e["op"], e["k"] or "", (",%d" % e["v"]) if e["v"] else ""))
+        elif e["e"] == "Ret" and e["op"] in ("get", "ex", "ttl", "getb", "keys", "size"):
+            out.append("%s:%s->%s" % (e["t"], e["op"], e["rvs"] if e["op"] in ("getb", "keys") else e["rv"]))
+    return " ".join(out)[-700:]
+
+
+def run_sched(ck, args, timeout=1500):
+    rc, out = vf.run_driver("drv_s_kvmap", args, timeout=timeout)
+    if rc != 0:
+        raise vf.Infra("drv_s_kvmap failed: " + out[-1500:])
+    return out.strip().splitlines()[-1] if out.strip() else ""
+
+
+def concurrent_part(ck, tlc_programs, thorough):
+    rng = ck.rng
+    scratch = os.path.join(ck.work, "scratch_conc")
+    par = min(16, vf.NCPU)
+    total = inconclusive = distinct = 0
+    nontriv = set()
+    findings = []        # (case text, lines, pos)
+    # ---- preemption-bounded DFS of the programs derived from the TLC counterexamples (+ eviction / compaction variants)
+    dfs_jobs = [(1, p, 2, 1500) for p in tlc_programs]
+    if thorough:
+        dfs_jobs = [(1, p, 3, 12000) for p in tlc_programs] + [(2, p, 2, 3000) for p in tlc_programs]
+        dfs_jobs += [(1, "init=setx:1:1,set:2:1 ; a=get:1,ttl:1 ; b=expp:1,set:1:2", 2, 6000),
+                     (1, "init=set:1:1,set:2:1 ; a=get:1,get:2 ; b=compact,rm:1", 2, 6000),
+                     (1, "init=set:1:1,set:2:1 ; a=get:1 ; b=set:1:2 ; c=get:1,ex:1", 2, 8000)]
+    for j, (cache, prog, bound, cap) in enumerate(dfs_jobs):
+        outp = os.path.join(ck.work, "conc_dfs%d.ndjson" % j)
+        stat = run_sched(ck, ["dfs", cache, prog, bound, cap, outp, scratch, par])
+        done, other = split_conc(outp)
+        total += len(done) + len(other)
+        inconclusive += len(other)
+        n, rej = validate_conc(ck, "dfs%d" % j, done)
+        distinct += n
+        nontriv.update("".join(x) for x in done if overlapping(x))
+        ck.note("concurrent DFS cache=%d bound=%d '%s': %s, %d distinct executions, %d rejected" % (cache, bound, prog, stat, n, len(rej)))
+        for lines, pos in rej[:1]:
+            findings.append(("dfs %d | %s | %d %d" % (cache, prog, bound, cap), lines, pos))
+    # ---- random programs under random schedules (every other one with timeouts of the wheel's tick wait interleaved)
+    nrand = 3000 if thorough else 320
+    cases = []
+    for i in range(nrand):
+        prog = tlc_programs[i % len(tlc_programs)] if i < (600 if thorough else 90) else random_program(rng)
+        cases.append("cache=%d | %s | %s %d" % (rng.choice([1, 1, 2]), prog, "randomt" if i % 2 else "random", ck.seed * 7919 + i))
+    cp = os.path.join(ck.work, "conc_cases.txt")
+    open(cp, "w").write("\n".join(cases) + "\n")
+    outp = os.path.join(ck.work, "conc_rand.ndjson")
+    stat = run_sched(ck, ["run", cp, outp, scratch, par])
+    done, other = split_conc(outp)
+    total += len(done) + len(other)
+    inconclusive += len(other)
+    n, rej = validate_conc(ck, "rand", done)
+    distinct += n
+    nontriv.update("".join(x) for x in done if overlapping(x))
+    ck.note("concurrent random: %d programs (%s), %d distinct executions, %d rejected" % (nrand, stat, n, len(rej)))
+    # map a rejected execution back to its case: executions are written in case order
+    if rej:
+        all_execs = []
+        cur = []
+        for ln in open(outp):
+            cur.append(ln)
+            if ln.startswith('{"e":"Reset"'):
+                all_execs.append(cur)
+                cur = []
+        for lines, pos in rej[:3]:
+            idx = next((i for i, x in enumerate(all_execs) if x == lines), -1)
+            findings.append(("run | " + (cases[idx] if 0 <= idx < len(cases) else "?"), lines, pos))
+    ck.evaluations += total
+    ck.traces += distinct - len(findings)
+    ck.nontrivial += len(nontriv)
+    ck.note("concurrent part: %d executions under the scheduler (%d inconclusive: step limit / blocked outside the "
+            "scheduler / died), %d with overlapping calls of different threads" % (total, inconclusive, len(nontriv)))
+    if total == 0 or len(nontriv) == 0:
+        raise vf.Infra("self-test: the scheduler runs produced no execution with overlapping calls")
+    if inconclusive * 20 > total:
+        raise vf.Infra("concurrent part: %d of %d executions did not run to completion under the scheduler" % (inconclusive, total))
+    for case, lines, pos in findings:
+        again = confirm_conc(ck, case)
+        if again is None:
+            ck.note("concurrent rejection not repeated on re-run (ignored): %s" % case)
+            continue
+        lines2, pos2 = again
+        rp = ck.save_replay("conc_reject_%d" % (abs(hash(case)) % 100000), {
+            "trace.ndjson": "".join(lines2), "case.txt": "conc " + case + "\n",
+            "why.txt": "KvConcTrace.tla finds no linearization; first event that cannot be matched (line %d): %s\n" % (
+                pos2 + 1, lines2[pos2] if 0 <= pos2 < len(lines2) else "?")})
+        ck.violation("concurrent execution not linearizable w.r.t. the reference map (%s): ... %s" % (case, conc_summary(lines2, pos2)), rp)
+    # self-test of the oracle: a stale answer in the sequential read-back must be rejected
+    for lines in done:
+        idx = next((i for i, l in enumerate(lines) if l.startswith('{"e":"Ret","t":"main","op":"get"') and '"rv":0' not in l), -1)
+        if idx >= 0:
+            e = json.loads(lines[idx])
+            e["rv"] = e["rv"] % 3 + 1
+            bad = lines[:idx] + [json.dumps(e, separators=(",", ":")) + "\n"] + lines[idx + 1:]
+            n2, rej2 = validate_conc(ck, "selftest", [bad])
+            if not rej2:
+                raise vf.Infra("self-test: KvConcTrace accepted a corrupted read-back")
+            break
+
+
+def confirm_conc(ck, case):
+    """re-run a concurrent case; return (lines, pos) of a rejected execution or None"""
+    kind, _, rest = case.partition(" | ")
+    scratch = os.path.join(ck.work, "scratch_conc")
+    outp = os.path.join(ck.work, "conc_confirm.ndjson")
+    for attempt in range(3):
+        if kind.startswith("dfs"):
+            cache = kind.split()[1]
+            prog, _, bc = rest.rpartition(" | ")
+            bound, cap = bc.split()
+            run_sched(ck, ["dfs", cache, prog, bound, cap, outp, scratch, min(16, vf.NCPU)])
+        else:
+            cp = os.path.join(ck.work, "conc_confirm.txt")
+            open(cp, "w").write(rest + "\n")
+            run_sched(ck, ["run", cp, outp, scratch, 1])
+        done, other = split_conc(outp)
+        n, rej = validate_conc(ck, "confirm", done)
+        if rej:
+            return rej[0]
+    return None
 
 
 def drive(ck, name, cases, binary="drv_kvmap"):
@@ -400,8 +690,18 @@ def selftest_corrupt(ck, good):
 
 
 def replay(ck, path):
-    ck.make("drv_kvmap")
+    ck.make("drv_kvmap", "drv_s_kvmap")
     cl = open(os.path.join(path, "case.txt")).read().strip()
+    if cl.startswith("conc "):
+        again = confirm_conc(ck, cl[5:])
+        if again is None:
+            print("[C12] replay: every execution of '%s' is linearizable w.r.t. the reference map" % cl)
+            return
+        lines, pos = again
+        print("".join(lines))
+        rp = ck.save_replay("replay_conc_reject", {"trace.ndjson": "".join(lines), "case.txt": cl + "\n"})
+        ck.violation("concurrent execution not linearizable w.r.t. the reference map (%s): ... %s" % (cl, conc_summary(lines, pos)), rp)
+        return
     again = confirm(ck, cl)
     if again is None:
         print("[C12] replay: '%s' is explained by the reference map" % cl)
